@@ -81,7 +81,14 @@ def get_model(name, dtype):
 
 def raw_call(kernel, fn, nq, start, stop, details, values, result, cutoff, mode):
     fn(nq, start, stop, details.buffer.ctypes.data, values.ctypes.data,
-       kernel.q_input.q.ctypes.data, result.ctypes.data, kernel._as_dtype(cutoff), mode)
+       kernel.q_input.q.ctypes.data, result.ctypes.data, _as_dtype(kernel)(cutoff), mode)
+
+
+def _as_dtype(kernel):
+    conv = getattr(kernel, "_as_dtype", None)
+    if conv is None:
+        conv = np.float32 if np.dtype(kernel.dtype) == np.float32 else np.float64
+    return conv
 
 
 def agree(got, want, tol):
@@ -421,9 +428,14 @@ def run_one(cfg, decisions=None, keep_events=False):
                 # (the driver may keep its vector on the kernel object or hand it back)
                 if getattr(kernel, "result", None) is not None:
                     kernel.result[:] = np.nan
-                ret = kernel._call_kernel(call_details, values, cutoff, is_magnetic, mode)
-                driver_res = ret if ret is not None else kernel.result
-                buffers["repo_driver_step100"] = np.asarray(driver_res)[:base + 4].tobytes()
+                driver = getattr(kernel, "_call_kernel", None)
+                if driver is not None:
+                    ret = driver(call_details, values, cutoff, is_magnetic, mode)
+                    driver_res = ret if ret is not None else kernel.result
+                    buffers["repo_driver_step100"] = np.asarray(driver_res)[:base + 4].tobytes()
+                else:
+                    # (the driver is then judged through the public interface only, A2)
+                    probe("repo_driver_entry_point_not_found")
                 if n_impl > 100:
                     probe("mesh_over_100_points_real_driver")
                     nontrivial = True
